@@ -45,6 +45,8 @@ func checkC07(w *World, r *Report) {
 	r.Rule("R07.10", "a write succeeds only after its packets were acknowledged", 1)
 	r.Rule("R07.12", "the byte count of a write covers every chunk it queued", 1)
 	r.Rule("R07.17", "a flag raised around a region is lowered on every path out of it", 1)
+	r.Rule("R07.22", "the queues' waiters are woken only where the condition they wait for was just tested (any wake-up completes a blocked Write)", 1)
+	c07WaitersWokenOnlyOnTheirCondition(w, r)
 	r.Rule("R07.21", "when data arrives every registered reader is notified (a timed-out reader's notifier stays on the list by design)", 1)
 	c07EveryWaiterIsWoken(w, r)
 	r.Rule("R07.20", "a chunk the in-queue refuses leaves the queue as it was, and a refusal always depends on the chunk offered (no sticky failure)", 1)
@@ -231,14 +233,57 @@ func ruleWrapSafe(w *World, r *Report, rule string, fns []*ssa.Function) {
 	}
 }
 
-func c07AckMemory(w *World, r *Report) {
+func c07AckMemory(w *World, r *Report) { ruleAckMemory(w, r, "R07.2") }
+
+func ruleAckMemory(w *World, r *Report, rule string) {
 	maxC, _ := w.Pkg("internal/streams/dns/util").Types.Scope().Lookup("MaxCachedChunks").(*types.Const)
 	for _, tn := range []string{"InQueue", "OutQueue"} {
 		n := w.Named("internal/streams/dns/util", tn)
 		acked := fieldOf(n, "acked")
 		key := "field:streams/dns/util." + tn + ".acked"
 		if n == nil || acked == nil || maxC == nil {
-			r.Undecided("R07.2", key, "-", "anchor unresolved")
+			r.Undecided(rule, key, "-", "anchor unresolved")
+			continue
+		}
+		if _, isMap := acked.Type().Underlying().(*types.Map); isMap {
+			// a set of numbers: it must forget, too — sequence numbers come round again after 65536 chunks
+			nIns, nDel := 0, 0
+			at := ""
+			for i := 0; i < n.NumMethods(); i++ {
+				fn := w.SSAFunc(n.Method(i))
+				if fn == nil {
+					continue
+				}
+				ofAcked := func(v ssa.Value) bool {
+					for _, root := range provenance(v, provOpts{}) {
+						if isLoadOfField(root, acked) {
+							return true
+						}
+					}
+					return false
+				}
+				allInstrs(fn, func(in ssa.Instruction) {
+					switch x := in.(type) {
+					case *ssa.MapUpdate:
+						if ofAcked(x.Map) {
+							nIns++
+							at = w.Pos(x.Pos())
+						}
+					case *ssa.Call:
+						if b, ok := x.Call.Value.(*ssa.Builtin); ok && (b.Name() == "delete" || b.Name() == "clear") && len(x.Call.Args) > 0 && ofAcked(x.Call.Args[0]) {
+							nDel++
+						}
+					}
+				})
+			}
+			switch {
+			case nIns == 0:
+				r.Check(false, rule, key, w.Pos(acked.Pos()), "", "the ack memory is never added to")
+			case nDel == 0:
+				r.Check(false, rule, key, w.Pos(acked.Pos()), "", fmt.Sprintf("%s: the ack memory is a set that only grows: sequence numbers are reused after 65536 chunks, so an acknowledgement remembered from the previous round retires the new chunk with that number before it was ever sent (silent loss in a long transfer)", at))
+			default:
+				r.Undecided(rule, key, w.Pos(acked.Pos()), "the ack memory is a map with deletions: oldest-first eviction under the bound is not decided for this representation")
+			}
 			continue
 		}
 		bad := ""
@@ -430,7 +475,7 @@ func c07AckMemory(w *World, r *Report) {
 		if nTrim == 0 && bad == "" {
 			bad = "the ack memory is never bounded"
 		}
-		r.Check(bad == "", "R07.2", key, w.Pos(acked.Pos()), fmt.Sprintf("%d append(s), each followed by the bound; %d eviction(s), all from the head", nApp, nTrim), bad, "appends", nApp, "evictions", nTrim)
+		r.Check(bad == "", rule, key, w.Pos(acked.Pos()), fmt.Sprintf("%d append(s), each followed by the bound; %d eviction(s), all from the head", nApp, nTrim), bad, "appends", nApp, "evictions", nTrim)
 	}
 }
 
@@ -1110,6 +1155,42 @@ func c07Bookkeeping(w *World, r *Report) {
 				}
 				fa, ok := st.Addr.(*ssa.FieldAddr)
 				if !ok || fieldVarOf(fa) != outF {
+					return
+				}
+				// a removal by filtering: `keep := out[:0]; for each c { if !acknowledged(c.SeqNo) { keep = append(keep, c) } }; out = keep`
+				if keeps := filterKeepAppends(st.Val, outF); len(keeps) > 0 {
+					n++
+					for _, kp := range keeps {
+						okf := false
+						for _, b := range fn.Blocks {
+							ifi, ok := b.Instrs[len(b.Instrs)-1].(*ssa.If)
+							if !ok {
+								continue
+							}
+							core, neg := stripNot(ifi.Cond)
+							mentionsSeq, mentionsAck := condMentions(core, seqF, ackedF)
+							if !mentionsSeq || !mentionsAck {
+								continue
+							}
+							// `acked[c.SeqNo]` (a set lookup): the packet is kept where the lookup says false
+							if lk, isLk := core.(*ssa.Lookup); isLk && !lk.CommaOk {
+								keepEdge := 1
+								if neg {
+									keepEdge = 0
+								}
+								if edgeDominates(b, keepEdge, kp.Block()) {
+									okf = true
+								}
+								continue
+							}
+							if edgeDominates(b, 0, kp.Block()) || edgeDominates(b, 1, kp.Block()) {
+								okf = true
+							}
+						}
+						if !okf {
+							bad = fmt.Sprintf("%s: the out-queue is filtered, but a packet is kept or dropped without a test of its number against the acknowledged numbers", w.Pos(kp.Pos()))
+						}
+					}
 					return
 				}
 				// a removal: append(out[a:b], out[c:]...) — both operands are re-slices of the queue
@@ -1861,4 +1942,87 @@ func calledListFields(w *World, fns []*ssa.Function, fn *ssa.Function, c ssa.Cal
 		}
 	}
 	return out
+}
+
+// filterKeepAppends: v is the result of the filter idiom over the slice field f — `keep := f[:0]` extended by
+// single-element appends. Returns those appends (nil if v is something else).
+func filterKeepAppends(v ssa.Value, f *types.Var) []*ssa.Call {
+	var keeps []*ssa.Call
+	base := false
+	seen := map[ssa.Value]bool{}
+	var walk func(x ssa.Value, d int)
+	walk = func(x ssa.Value, d int) {
+		if x == nil || seen[x] || d > 12 {
+			return
+		}
+		seen[x] = true
+		switch y := x.(type) {
+		case *ssa.Phi:
+			for _, e := range y.Edges {
+				walk(e, d+1)
+			}
+		case *ssa.Call:
+			if b, ok := y.Call.Value.(*ssa.Builtin); ok && b.Name() == "append" && len(y.Call.Args) == 2 {
+				keeps = append(keeps, y)
+				walk(y.Call.Args[0], d+1)
+			}
+		case *ssa.Slice:
+			if h, ok := constIntVal(y.High); ok && y.High != nil && h == 0 {
+				for _, root := range provenance(y.X, provOpts{}) {
+					if isLoadOfField(root, f) {
+						base = true
+					}
+				}
+			}
+		}
+	}
+	walk(v, 0)
+	if !base {
+		return nil
+	}
+	return keeps
+}
+
+// condMentions: does the backward slice of cond (through operands and the arguments of static calls, bounded) read
+// the fields a and b?
+func condMentions(cond ssa.Value, a, b *types.Var) (ma, mb bool) {
+	seen := map[ssa.Value]bool{}
+	var walk func(v ssa.Value, d int)
+	walk = func(v ssa.Value, d int) {
+		if v == nil || seen[v] || d > 10 {
+			return
+		}
+		seen[v] = true
+		if fa, ok := v.(*ssa.FieldAddr); ok {
+			if fieldVarOf(fa) == a {
+				ma = true
+			}
+			if fieldVarOf(fa) == b {
+				mb = true
+			}
+		}
+		if c, ok := v.(*ssa.Call); ok {
+			if g := c.Call.StaticCallee(); g != nil && inModule(g) {
+				allInstrs(g, func(in ssa.Instruction) {
+					if fa, ok := in.(*ssa.FieldAddr); ok {
+						if fieldVarOf(fa) == a {
+							ma = true
+						}
+						if fieldVarOf(fa) == b {
+							mb = true
+						}
+					}
+				})
+			}
+		}
+		if in, ok := v.(ssa.Instruction); ok {
+			for _, op := range in.Operands(nil) {
+				if *op != nil {
+					walk(*op, d+1)
+				}
+			}
+		}
+	}
+	walk(cond, 0)
+	return
 }
